@@ -1,7 +1,7 @@
-(* Obligation C18/tdelta_true_times.  Statement as printed by Coq from Inferno.C18.DelayAdjProofs; proof by reference.
+(* Obligation C18/tdelta_true_times.  Statement as printed by Coq from Inferno.C18.EventProofs; proof by reference.
    This file contains nothing else, so the statement cannot be weakened quietly. *)
 From Coq Require Import List ZArith Bool Reals Lra Lia.
-From Inferno Require Import Base.Num Base.NumR Gen.Stdkernels C18.DelayAdj C18.DelayAdjProofs.
+From Inferno Require Import Base.Num Base.NumR C18.DelayAdj C18.EventProofs.
 Import ListNotations.
 Open Scope R_scope.
 Theorem tdelta_true_times : forall (dt : R) (hpre hpost : list bool) (d : T RN) (jp jq : nat),
@@ -9,5 +9,5 @@ Theorem tdelta_true_times : forall (dt : R) (hpre hpost : list bool) (d : T RN) 
   is_last hpre jp ->
   is_last hpost jq ->
   tdelta_adj RN (ev_peek dt hpre) (ev_peek dt hpost) d = Some (INR jq * dt - INR jp * dt - d).
-Proof. exact (@Inferno.C18.DelayAdjProofs.tdelta_true_times). Qed.
+Proof. exact (@Inferno.C18.EventProofs.tdelta_true_times). Qed.
 Print Assumptions tdelta_true_times.
